@@ -553,3 +553,196 @@ def _ops(rv):
     if k in ("ref", "discr"):
         return [{"k": "copy", "place": rv["place"]}]
     return []
+
+
+# ------------------------------------------------------------------ extracted machines (C08 / C14)
+
+def _stage_named(lib, struct):
+    for st in common.stages(lib):
+        if st.struct == struct:
+            return st
+    return None
+
+
+def limiter_machine(rep, lib, rid="C08-LIMITER-MACHINE"):
+    """The limiter as a finite machine, extracted by partial evaluation and explored exhaustively for small S, T."""
+    from lib.machine import run_method
+    from lib.peval import ok as OK
+    r = rep.rule(rid, "the limiter, as the state machine its process() body implements (state = skipped, passed): for "
+                 "every skip S in 0..3, take T in {none, 0..3} and every stream of up to 9 rows it forwards exactly the "
+                 "rows S..S+T-1, answers Break as soon as the T-th row was forwarded (at the first row after the skipped "
+                 "ones when T = 0) and not before, answers what its successor answers when there is no take, and starts "
+                 "from skipped = passed = 0", floor=20,
+                 analysis="A5 partial evaluation of Limiter::process per concrete (S, T, skipped, passed) with the "
+                          "successor's answer seeded; the transitions are composed exhaustively over 20 (S,T) pairs")
+    st = _stage_named(lib, "limits::Limiter")
+    dec = lib.adts.get("processor::ProcessDesision")
+    if st is None or "process" not in st.bodies or not dec:
+        r.missing("limits::Limiter::process")
+        return
+    b = st.bodies["process"]
+    fn = [f["name"] for f in st.fields]
+    need = ("skip", "limit", "skipped", "passed")
+    if any(x not in fn for x in need):
+        r.bad("Limiter/fields", "the limiter's state is not (skip, limit, skipped, passed): %s (unrecognised)" % fn, b.where())
+        return
+    dn = [v["name"] for v in dec["variants"]]
+    CONT, BRK = ("adt", dn.index("Continue"), ()), ("adt", dn.index("Break"), ())
+    # initial state from the constructor aggregate
+    ctor = lib.bodies.get("limits::Limiter::create_process")
+    init_ok = False
+    if ctor is not None:
+        for bb, idx, place, rv, _ in ctor.assignments():
+            if rv["k"] == "agg" and rv.get("adt") == "limits::Limiter":
+                named = dict(zip(rv["fields"], rv["ops"]))
+                init_ok = named["skipped"].get("int") == 0 and named["passed"].get("int") == 0 and \
+                    named["skipped"].get("k") == "const" and named["passed"].get("k") == "const"
+    if init_ok:
+        r.ok("Limiter/initial-state", "skipped = 0, passed = 0", ctor.where(), nontrivial=False)
+    else:
+        r.bad("Limiter/initial-state", "a new limiter does not start with skipped = 0 and passed = 0",
+              ctor.where() if ctor else "")
+    eq_ok = common.derived_eq_ok(lib)
+
+    def step(S, T, skipped, passed, succ):
+        selfv = [None] * len(fn)
+        selfv[fn.index("skip")] = ("i", S)
+        selfv[fn.index("limit")] = ("adt", 1, (("i", T),)) if T is not None else ("adt", 0, ())
+        selfv[fn.index("skipped")] = ("i", skipped)
+        selfv[fn.index("passed")] = ("i", passed)
+        fwd = []
+
+        def model(c, av, envv, pe):
+            if c.trait == common.PROCESS_TRAIT and c.method() == "process":
+                fwd.append(1)
+                return (True, OK(succ))
+            return None
+        outs = run_method(lib, b, ("adt", 0, tuple(selfv)), model, eq_ok=eq_ok)
+        if len(outs) != 1:
+            return None
+        s, rv = outs[0]
+        if s is None or rv is None or rv[0] != "adt" or rv[1] != 0:
+            return None
+        ns = s[2]
+        return (ns[fn.index("skipped")], ns[fn.index("passed")], len(fwd), rv[2][0])
+    for S in range(4):
+        for T in (None, 0, 1, 2, 3):
+            key = "limiter[skip=%d,take=%s]" % (S, "none" if T is None else T)
+            skipped, passed = 0, 0
+            forwarded = []
+            problem = None
+            broke_at = None
+            for i in range(9):
+                t = step(S, T, skipped, passed, CONT)
+                if t is None or t[0] is None or t[1] is None:
+                    problem = "row %d: the transition is not a function of (skip, take, skipped, passed): unrecognised " \
+                              "idiom" % i
+                    break
+                if t[0][0] != "i" or t[1][0] != "i":
+                    problem = "row %d: counters not integers" % i
+                    break
+                skipped, passed = t[0][1], t[1][1]
+                if t[2]:
+                    forwarded.append(i)
+                    if t[2] != 1:
+                        problem = "row %d is forwarded %d times" % (i, t[2])
+                        break
+                if t[3] == BRK:
+                    broke_at = i
+                    break
+                if t[3] != CONT:
+                    problem = "row %d: unknown decision" % i
+                    break
+            if problem is None:
+                want = [i for i in range(9) if i >= S and (T is None or i < S + T)]
+                if T is not None:
+                    want_break = S + max(T, 1) - 1
+                    want = [i for i in want if i <= want_break]
+                    if broke_at is None and want_break < 9:
+                        problem = "never answers Break (rows forwarded: %s)" % forwarded
+                    elif broke_at is not None and broke_at != want_break:
+                        problem = "answers Break at row %d, expected at row %d (rows forwarded: %s)" % (
+                            broke_at, want_break, forwarded)
+                elif broke_at is not None:
+                    problem = "answers Break at row %d although there is no --take" % broke_at
+                if problem is None and forwarded != want:
+                    problem = "forwards rows %s, expected %s" % (forwarded, want)
+            if problem is None and T is None:
+                # without a take the successor's Break is passed on
+                t = step(S, T, S, 0, BRK)
+                if t is None or t[3] != BRK:
+                    problem = "does not pass on the successor's Break"
+            if problem:
+                r.bad(key, problem, b.where())
+            else:
+                r.ok(key, "forwards rows %s%s" % (forwarded, "" if broke_at is None else ", Break at row %d" % broke_at),
+                     b.where())
+
+
+def sorter_slot(rep, lib, rid="C08-SLOT"):
+    """The top-N bookkeeping of SortProcess::process per scenario (key present/absent x space_left)."""
+    from lib.machine import run_method
+    from lib.peval import ok as OK, some, NONE
+    r = rep.rule(rid, "SortProcess::process: a row whose sort key is absent is dropped and changes nothing (no slot "
+                 "of the top-N budget is used); a row with a key is stored exactly once; with space left the budget "
+                 "goes down by one and nothing is evicted; with no space left exactly one row is evicted after the "
+                 "insertion and the budget stays 0; without a budget nothing is evicted; the stage answers Continue",
+                 floor=4, analysis="A5 partial evaluation of SortProcess::process (following local &mut self helpers) "
+                                   "with the key lookup and self.space_left seeded")
+    st = _stage_named(lib, "sorters::SortProcess")
+    dec = lib.adts.get("processor::ProcessDesision")
+    if st is None or "process" not in st.bodies or not dec:
+        r.missing("sorters::SortProcess::process")
+        return
+    b = st.bodies["process"]
+    fn = [f["name"] for f in st.fields]
+    if "space_left" not in fn:
+        r.bad("SortProcess/fields", "no space_left field (unrecognised)", b.where())
+        return
+    dn = [v["name"] for v in dec["variants"]]
+    CONT = ("adt", dn.index("Continue"), ())
+    si = fn.index("space_left")
+    scen = [("key absent, space 3", False, 3, dict(push=0, evict=0, space=3)),
+            ("key absent, space 0", False, 0, dict(push=0, evict=0, space=0)),
+            ("key present, space 3", True, 3, dict(push=1, evict=0, space=2)),
+            ("key present, space 1", True, 1, dict(push=1, evict=0, space=0)),
+            ("key present, space 0", True, 0, dict(push=1, evict=1, space=0)),
+            ("key present, no budget", True, None, dict(push=1, evict=0, space=None)),
+            ("key absent, no budget", False, None, dict(push=0, evict=0, space=None))]
+    for label, present, space, want in scen:
+        selfv = [None] * len(fn)
+        selfv[si] = some(("i", space)) if space is not None else NONE
+        ev = []
+
+        def model(c, av, envv, pe, present=present):
+            n = c.name or ""
+            if c.trait == common.GET_TRAIT:
+                return (True, some(("i", 42)) if present else NONE)
+            if "VecDeque" in n and n.rsplit("::", 1)[-1] in ("push_front", "push_back"):
+                ev.append("push")
+                return (True, ("adt", 0, ()))
+            if n.endswith("SortProcess::remove_last_item"):
+                ev.append("evict")
+                return (True, ("adt", 0, ()))
+            return None
+        try:
+            outs = run_method(lib, b, ("adt", 0, tuple(selfv)), model, eq_ok=common.derived_eq_ok(lib))
+        except RuntimeError:
+            outs = []
+        key = "process[%s]" % label
+        if len(outs) != 1 or outs[0][0] is None:
+            r.bad(key, "the effect is not determined by (key present, space_left): %d outcomes (unrecognised idiom)"
+                  % len(outs), b.where())
+            continue
+        s, rv = outs[0]
+        sp = s[2][si]
+        got_space = None if sp == NONE else (sp[2][0][1] if sp and sp[0] == "adt" and sp[1] == 1 and sp[2][0] else "?")
+        got = dict(push=ev.count("push"), evict=ev.count("evict"), space=got_space)
+        order_ok = ev.index("push") < ev.index("evict") if ("push" in ev and "evict" in ev) else True
+        if got != want or rv != OK(CONT) or not order_ok:
+            r.bad(key, "stored %d time(s), evicted %d, budget afterwards %s, answer %s; expected stored %d, evicted %d, "
+                  "budget %s, Continue%s" % (got["push"], got["evict"], got["space"], "Continue" if rv == OK(CONT) else rv,
+                                             want["push"], want["evict"], want["space"],
+                                             "" if order_ok else " (eviction must follow the insertion)"), b.where())
+        else:
+            r.ok(key, "stored %d, evicted %d, budget %s" % (got["push"], got["evict"], got["space"]), b.where())
